@@ -135,7 +135,8 @@ def store_facts(ns, store, model, obs, tol_q=F64):
 def criteria_facts(ns):
     """C15: the criterion values equal their standard definitions recomputed
     from the samples of the main store."""
-    st = ns._ordered_samples
+    # the main store, chosen here (not through the sampler's own alias): the independent set when it is drawn
+    st = ns.iid_samples if getattr(ns, "draw_iid_live", False) and ns.iid_samples is not None else ns.training_samples
     smp = st.samples
     out = {}
     lw = smp["logL"].astype(np.longdouble) + smp["logW"].astype(np.longdouble)
